@@ -1,4 +1,5 @@
 import Modbus.Lemmas.CrcDetect
+import Modbus.Lemmas.CrcOrbit
 /-
 C08 (error-detection half) — a valid RTU frame altered by any single-bit error, any error burst up
 to 16 bits long, or (frames of at most 256 bytes) any double-bit error fails the CRC comparison of
@@ -99,6 +100,31 @@ theorem crc_detects_double (F E : Bytes) (hF : CrcOk F) (hlen : E.length = F.len
 example : ¬ CrcOk (xorBytes goodFrame [0x01, 0, 0, 0, 0, 0, 0, 0x80]) :=
   crc_detects_double goodFrame [0x01, 0, 0, 0, 0, 0, 0, 0x80] (by decide +kernel) rfl (by decide) 0 63
     (by decide) (by decide) (by decide +kernel)
+
+/-- beyond the property's 256-byte bound: two flipped bits at any distance up to 32766 are detected
+    (the round's period on 1 is 32767; `Crc.orbit_32766`, sixteen kernel computations of ≤ 2048 steps) -/
+theorem crc_detects_double_dist_full (F E : Bytes) (hF : CrcOk F) (hlen : E.length = F.length)
+    (p q : Nat) (hpq : p < q) (hq : q < 8 * E.length) (hd : q - p ≤ 32766)
+    (hE : ∀ k, k < 8 * E.length → (errBit E k = true ↔ (k = p ∨ k = q))) :
+    ¬ CrcOk (xorBytes F E) := by
+  rw [Crc.crcOk_xor_iff F E hF hlen]
+  apply crcRaw_zero_ne_zero_of_feed
+  apply feed_two_ne_zero_of _ p q hpq (by rw [messageBits_length]; exact hq)
+    (Lpow_one_ne_one_full _ (by omega) hd)
+  intro k hk
+  rw [messageBits_getElem]
+  rw [messageBits_length] at hk
+  exact hE k hk
+
+/-- … hence every double-bit error in a frame of at most 4095 bytes -/
+theorem crc_detects_double_4095 (F E : Bytes) (hF : CrcOk F) (hlen : E.length = F.length)
+    (h4095 : F.length ≤ 4095) (hE : DoubleBit E) : ¬ CrcOk (xorBytes F E) := by
+  obtain ⟨p, q, hpq, hq, h2⟩ := hE
+  exact crc_detects_double_dist_full F E hF hlen p q hpq hq (by omega) h2
+
+example : ¬ CrcOk (xorBytes goodFrame [0x01, 0, 0, 0, 0, 0, 0, 0x80]) :=
+  crc_detects_double_4095 goodFrame [0x01, 0, 0, 0, 0, 0, 0, 0x80] (by decide +kernel) rfl (by decide)
+    ⟨0, 63, by decide, by decide, by decide +kernel⟩
 
 /-! ### every bit position, every pair of positions: concrete error patterns
 
